@@ -1,6 +1,7 @@
 package logger
 
 import (
+	"bytes"
 	"context"
 	"fmt"
 	"os"
@@ -141,4 +142,40 @@ func HarnessC18_Prefix() {
 		vAssert(len(out) == 1, "no prefix for a context.Context without id")
 	}
 	vReach("prefix")
+}
+
+type closableBuffer struct{ bytes.Buffer }
+
+func (c *closableBuffer) Close() error { return nil }
+
+// HarnessC18_Rotation: ids stay unique across switching and closing the log writer (a
+// multi-step history: create, Switch/Close, create).
+func HarnessC18_Rotation() {
+	var ids []int
+	mk := func() {
+		id, ok := cidOf(WithContext(context.Background()))
+		vAssert(ok, "a created context carries an id")
+		ids = append(ids, id)
+	}
+	mk()
+	switch vChoice(3) {
+	case 0:
+		Switch(&closableBuffer{})
+	case 1:
+		Switch(&bytes.Buffer{})
+	case 2:
+		Switch(&closableBuffer{})
+		Close()
+	}
+	mk()
+	if al, ok := cidOf(AliasContext(context.Background(), nil)); ok {
+		ids = append(ids, al)
+	}
+	mk()
+	for a := 0; a < len(ids); a++ {
+		for b := a + 1; b < len(ids); b++ {
+			vAssert(ids[a] != ids[b], "ids stay different from every other one created in the process, also across a switch of the log writer")
+		}
+	}
+	vReach("rotation")
 }
